@@ -718,3 +718,34 @@ def fam_clocks_deep():
                 yield ("clocks-deep/%r/T%r/N%d" % (tick, T, N),
                        dict(tick=tick, inits=[], framers=[dict(name="m", schedule="active", frames=frames)]),
                        dict(tick=tick, T=T, N=N, clocked=()))
+
+
+def fam_markers_deep():
+    """marker conditions in other positions: as the condition of a conditional auxiliary, as a `let` entry guard,
+    conjoined with a comparison, and on two shares at once."""
+    ctxs = ("enter", "exit")
+    for kind in ("updated", "changed"):
+        for inframe in (None, "me", "B"):
+            n = (kind, "x", inframe, None, False)
+            # (a) conditional aux started by a marker condition
+            frames = [dict(name="A", items=recs("A", ctxs) + [("auxif", "ax", [n]), ("go", "B", [E0])]),
+                      dict(name="A1", over="A", items=recs("A1", ctxs)),
+                      dict(name="B", items=recs("B", ctxs) + [("go", "A", [E0])])]
+            if inframe != "B" or True:
+                yield ("markers-deep/%s/auxif/%s" % (kind, inframe),
+                       dict(tick=0.125, inits=[("x", 0), ("env.e0", 0)], framers=[dict(name="m", schedule="active", frames=frames), aux_framer("ax", "repeat1")]),
+                       dict())
+            # (b) `let` guard with a marker condition on the target frame
+            frames = [dict(name="A", items=recs("A", ctxs) + [("go", "B", [E0])]),
+                      dict(name="B", items=[("let", [(kind, "x", "A" if inframe == "B" else inframe, None, False)])] + recs("B", ("benter",) + ctxs) + [("go", "A", [E0])])]
+            yield ("markers-deep/%s/let/%s" % (kind, inframe),
+                   dict(tick=0.125, inits=[("x", 0), ("env.e0", 0)], framers=[dict(name="m", schedule="active", frames=frames)]), dict())
+            # (c) conjunction marker + comparison, and two marks on two shares
+            frames = [dict(name="A", items=recs("A", ctxs) + [("go", "B", [n, ("cmp", "x", "==", 2, None, False)]), ("go", "C", [(kind, "env.e0", None, None, False), n])]),
+                      dict(name="B", items=recs("B", ctxs) + [("go", "A", [(kind, "x", None, "mk", False)])]),
+                      dict(name="C", items=recs("C", ctxs) + [("go", "A", [(kind, "env.e0", "me", None, False)])])]
+            yield ("markers-deep/%s/conj/%s" % (kind, inframe),
+                   dict(tick=0.125, inits=[("x", 0), ("env.e0", 0)], framers=[dict(name="m", schedule="active", frames=frames)]), dict())
+
+
+XE_ALPHABET = [None, {"x": 1}, {"x": 2}, {"env.e0": 1}, {"env.e0": 0}, {"x": 1, "env.e0": 1}]
